@@ -128,7 +128,7 @@ func init() {
 		for _, c := range base["C09"](t, s) {
 			if c.Family == "rawsrv" {
 				switch c.S["dev"] {
-				case "data-plus1", "data-plus1-noclose", "envelope-inside", "envelope-inside-noclose", "size-minus1", "dup-msg", "drop-msg-first", "two-responses", "big-chunk":
+				case "overrun-one-frame", "data-plus1", "data-plus1-noclose", "envelope-inside", "envelope-inside-noclose", "size-minus1", "dup-msg", "drop-msg-first", "two-responses", "big-chunk":
 					out = append(out, c)
 				}
 			}
